@@ -244,6 +244,19 @@ func c19frags(r *Rng, total int, nonstd *bool) ([]int, bool) {
 	}
 }
 
+// c19anyNonHex: every byte that is neither a hex digit (either case) nor the line terminator
+var c19anyNonHex = func() []byte {
+	var out []byte
+	for b := 0; b < 256; b++ {
+		c := byte(b)
+		if c >= '0' && c <= '9' || c >= 'A' && c <= 'F' || c >= 'a' && c <= 'f' || c == '\n' {
+			continue
+		}
+		out = append(out, c)
+	}
+	return out
+}()
+
 var c19nonhex = []byte{' ', 'g', 'G', 'x', 'X', 'O', 'l', '-', '+', '_', '.', ':', '/', '@', '`', '\t', '\r', 0x0B, 0x0C, 0x00, 0x7F, 0x80, 0xC2, 0xA0, 0xE2, 0xFF, '%', '"'}
 
 func init() {
@@ -295,7 +308,7 @@ func c19Facts(w io.Writer) {
 }
 
 func genC19(r *Rng, tier string, emit func(Case)) {
-	nValid, nMut, nGarb, nEnc := 700, 1400, 900, 150
+	nValid, nMut, nGarb, nEnc := 700, 3000, 900, 150
 	bigEvery := 50 // every bigEvery-th stream may carry a message at the upper end of the range (the model reader is quadratic in the line length)
 	if tier == "thorough" {
 		nValid, nMut, nGarb, nEnc = 25000, 50000, 40000, 3000
@@ -409,6 +422,12 @@ func genC19(r *Rng, tier string, emit func(Case)) {
 			}
 			l = append([]byte{}, l...)
 			l[sp+1+off] = c19nonhex[r.Intn(len(c19nonhex))]
+			if i/4 < 3*len(c19anyNonHex) {
+				// the first rounds walk through every non-hex byte value (three positions each)
+				l[sp+1+off] = c19anyNonHex[(i/4)%len(c19anyNonHex)]
+			} else if r.Bool() {
+				l[sp+1+off] = c19anyNonHex[r.Intn(len(c19anyNonHex))]
+			}
 			if l[sp+1+off] == ' ' {
 				kind = "nonhex-blank"
 			} else if off >= 2 && off%2 == 0 {
